@@ -220,7 +220,14 @@ def sim : R String := do
   | none => failure
   | some ops =>
     let (s', outs) := s.run ops
-    pure (join (["ok"] ++ outs.flatMap outSim ++ ["cursor", toString s'.cursor, toString (min s.target.length (bufCount ops))]))
+    -- the counting specification on the same calls (theorem `sim_refines_spec`: the answers above are these, read through k ↦ x_k)
+    let (a', souts) := SimSpec.run s.target.length { served := 0, last := none } ops
+    let specTok : SimOut Nat → String
+      | .flag b => if b then "T" else "F"
+      | .data none => "g-"
+      | .data (some i) => s!"g{i}"
+    pure (join (["ok"] ++ outs.flatMap outSim ++ ["cursor", toString s'.cursor, toString (min s.target.length (bufCount ops))]
+      ++ ["spec", toString a'.served] ++ souts.map specTok))
 
 def sensor : R String := do
   let ⟨n, s⟩ ← readTraj
